@@ -91,6 +91,10 @@ type Crew struct {
 	previous map[string]string
 	timers   *Timers
 
+	// changedMutex guards changed: timer goroutines note changes,
+	// too.
+	changedMutex sync.Mutex
+
 	in  chan interface{}
 	out chan *Result
 
@@ -141,14 +145,29 @@ func (c *Crew) init(ctx context.Context) error {
 	return nil
 }
 
-// change just updates the cache of what machines have changed.
-func (c *Crew) change(mid string) *Changed {
+// change just updates the cache of what machines have changed: f is
+// called with the (possibly new) entry for the given machine.
+func (c *Crew) change(mid string, f func(ch *Changed)) {
+	c.changedMutex.Lock()
 	ch, have := c.changed[mid]
 	if !have {
 		ch = &Changed{}
 		c.changed[mid] = ch
 	}
-	return ch
+	f(ch)
+	c.changedMutex.Unlock()
+}
+
+// timersState returns the state to report for the timers machine: its
+// current node and bindings with a snapshot of the pending timers
+// (and not the map that the timer goroutines and this crew update).
+func (c *Crew) timersState() *core.State {
+	st := DefaultState(nil)
+	if m, have := c.Machines[TimersMachine]; have && m.State != nil {
+		st = m.State.Copy()
+	}
+	st.Bs["timers"] = c.timers.snapshot()
+	return st
 }
 
 // Logf logs if c.Verbose.
@@ -182,14 +201,15 @@ func (c *Crew) SetMachine(ctx context.Context, mid string, src *crew.SpecSource,
 		// Report the new machine with its initial state.  It
 		// might replace a machine deleted since the last report:
 		// that deletion is superseded.
-		ch := c.change(mid)
-		if ch.Deleted && src == nil {
-			// The machine that was deleted might have had
-			// a spec; its replacement has none (yet).
-			ch.SpecSrc = &crew.SpecSource{}
-		}
-		ch.Deleted = false
-		ch.State = m.State
+		c.change(mid, func(ch *Changed) {
+			if ch.Deleted && src == nil {
+				// The machine that was deleted might have had
+				// a spec; its replacement has none (yet).
+				ch.SpecSrc = &crew.SpecSource{}
+			}
+			ch.Deleted = false
+			ch.State = m.State
+		})
 	} else if state != nil {
 		// Replace the state of the existing machine (the
 		// change is reported below, so it has to happen).
@@ -197,11 +217,11 @@ func (c *Crew) SetMachine(ctx context.Context, mid string, src *crew.SpecSource,
 	}
 
 	if src != nil {
-		c.change(mid).SpecSrc = src
+		c.change(mid, func(ch *Changed) { ch.SpecSrc = src })
 	}
 
 	if state != nil {
-		c.change(mid).State = state
+		c.change(mid, func(ch *Changed) { ch.State = state })
 	}
 
 	switch mid {
@@ -253,7 +273,7 @@ func (c *Crew) SetMachine(ctx context.Context, mid string, src *crew.SpecSource,
 // No error is returned if the machine doesn't exist.
 func (c *Crew) DeleteMachine(ctx context.Context, mid string) error {
 	delete(c.Machines, mid)
-	c.change(mid).Deleted = true
+	c.change(mid, func(ch *Changed) { ch.Deleted = true })
 	return nil
 }
 
@@ -326,8 +346,12 @@ func (c *Crew) GetChanged(ctx context.Context) (map[string]*Changed, error) {
 
 	changed := make(map[string]*Changed, 32)
 
-	for mid, change := range c.changed {
-		delete(c.changed, mid)
+	c.changedMutex.Lock()
+	pending := c.changed
+	c.changed = make(map[string]*Changed, 8)
+	c.changedMutex.Unlock()
+
+	for mid, change := range pending {
 
 		if mid == CaptainMachine {
 			continue
@@ -347,7 +371,14 @@ func (c *Crew) GetChanged(ctx context.Context) (map[string]*Changed, error) {
 		}
 
 		if change.State != nil {
-			ched.State = change.State.Copy()
+			if mid == TimersMachine {
+				// Whoever noted the change (maybe a
+				// timer goroutine), what is reported
+				// is the machine as it is now.
+				ched.State = c.timersState()
+			} else {
+				ched.State = change.State.Copy()
+			}
 		}
 
 		if change.SpecSrc != nil {
@@ -530,7 +561,7 @@ func (c *Crew) RunMachine(ctx context.Context, msg interface{}, m *crew.Machine)
 
 	if to := walked.To(); to != nil {
 		m.State = to.Copy()
-		c.change(m.Id).State = to.Copy()
+		c.change(m.Id, func(ch *Changed) { ch.State = to.Copy() })
 	}
 	vhook("walked", m.Id, walked)
 
